@@ -199,8 +199,8 @@ P_C07(pre, c, r, post, sg) ==
          \A k \in DOMAIN r.txs : r.txs[k].maker \in Ids => ~sg.gone[r.txs[k].maker]   \* never trades afterwards
     [] c.op \in {"read", "list", "snapshot", "display", "serialize", "stats", "snapjson"} ->
          post = pre                                                         \* reads are pure
-    [] c.op = "add" /\ c.o.id \notin Live(pre.qmap) ->
-         post.qmap = [pre.qmap EXCEPT ![c.o.id] = c.o] /\ r = RetSome(c.o)
+    \* (what an add does is not C07's subject: a deviation there is model drift, and C01 / C02 / C04
+    \*  judge its consequences)
     [] OTHER -> TRUE
 
 \* C15 ------------------------------------------------------------------------
